@@ -306,6 +306,9 @@ def run_instance(eng, prover, inst, props):
                 if e[0] == "lock-exit":
                     prover.goal(f"C10/{base}/release-only-held", prefix_state(x, e), e[3] > 0, info=ctx)
 
+        if "C11" in props:
+            check_c11(eng, prover, base, x, res, s, pre, n, rn, rid, ctx, kind, inst.meth,
+                      (loads[-1][1][3][s.root.addr] if loads else pre.sel("View", rn)))
         if spec["kind"] == "read":
             if "C17" in props:
                 prover.goal(f"C17/{base}/frame:no-resource-effect", x,
@@ -480,3 +483,49 @@ def find_function(eng, q):
         if fi.qualname == q:
             return fi
     return None
+
+
+STORE_ARG = {"setitem": 1, "insert": 1, "append": 0, "extend": 0, "iadd": 0}
+SINGLE_ELEMENT = {"__setitem__", "setdefault", "insert", "append"}
+
+
+def contains_term(big, small):
+    return any(e.eq(small) for e in smt.subterms([big]))
+
+
+def check_c11(eng, prover, base, x, res, s, pre, n, rn, rid, ctx, kind, meth, VloadRoot):
+    """Entry-point obligations of C11 on one path of a mutator."""
+    # (i) callee preconditions stated for C11 (data handed over as 'already validated' is admissible)
+    for e in x.events:
+        if e[0] == "requires" and str(e[2]).startswith("C11:"):
+            prover.goal(f"C11/{base}/callee-requires:{e[2]}", x, e[3], info=ctx)
+    # (ii) validate-before-store: every value stored into the receiver's container was produced by _from_base
+    # from a source that the RECEIVING node validated earlier in this call
+    validated = [(i, e) for i, e in enumerate(x.events) if e[0] == "validated" and e[1] == s.self_.addr]
+    for i, e in enumerate(x.events):
+        if e[0] != "cell-write" or e[1] != s.self_.addr or e[2] not in STORE_ARG:
+            continue
+        vals = e[6] if len(e) > 6 else ()
+        idx = STORE_ARG[e[2]]
+        if idx >= len(vals):
+            continue
+        v = vals[idx]
+        src = v.meta.get("fb_src") if isinstance(v, Z) else None
+        if src is None:
+            src = to_val(v)
+        ok = any(j < i and contains_term(ev[2], src) for j, ev in validated)
+        prover.structural(f"C11/{base}/protocol:validate-before-store", ok, x, dict(ctx, op=e[2]))
+        if kind == "dict" and e[2] == "setitem":
+            key = e[5][0]
+            okk = any(j < i and contains_term(ev[2], key) for j, ev in validated)
+            prover.structural(f"C11/{base}/protocol:key-validated-before-store", okk, x, dict(ctx, op=e[2]))
+    # (iii) a rejected single-element operation changes nothing
+    rejected = any(e[0] == "rejected" for e in x.events)
+    faulty = any(e[0] == "io-fault" and e[1] != "unserialisable" for e in x.events)
+    if rejected and isinstance(res, Raise) and meth in SINGLE_ELEMENT and not faulty:
+        # (the operation may have re-loaded memory from the resource and re-saved that same content)
+        R0 = pre.sel("Res", rid)
+        prover.goal(f"C11/{base}/raises:rejected-changes-nothing", x,
+                    z3.And(x.sel("View", rn) == VloadRoot,
+                           z3.Or(x.sel("Res", rid) == R0, x.sel("Res", rid) == VloadRoot)), info=ctx)
+    # (iv) data invariant: the receiver's content stays admissible
